@@ -4,6 +4,8 @@ mod arena;
 mod builder;
 mod code;
 mod irtext;
+mod modsuite;
+mod modtext;
 mod offsets;
 mod visit;
 mod decode;
@@ -52,6 +54,7 @@ fn main() {
         "code" => code::main(seed, &tier, only.as_deref()),
         "offsets" => offsets::main(seed, &tier, only.as_deref()),
         "dwarf" => dwarf::main(seed, &tier, only.as_deref()),
+        "module" => modsuite::main(seed, &tier, only.as_deref()),
         "opsxtest" => {
             let u = opsx::universe(1);
             println!("supported plain ops {} typed {} unsupported {} cases {} untypable {:?}", u.supported_plain, u.typed, u.unsupported, u.cases.len(), u.untypable);
